@@ -234,9 +234,14 @@ def run_query(q, mem_gb=12):
             r.status = 'pass'
         elif proc.returncode == 10 and 'VERIFICATION FAILED' in out:
             r.status = 'fail'
-            if unwind_fail:
+            other_fail = [k for k, v in r.asserts.items() if v == 'FAILURE' and not (isinstance(k, str) and 'unwinding assertion' in k)]
+            if unwind_fail and not other_fail:
                 r.status = 'error'
                 r.note = 'unwinding bound too small: ' + ', '.join(unwind_fail[:3])
+            elif unwind_fail:
+                # a loop ran past its bound on a path that also violates an assertion (e.g. a list turned cyclic by a use of an
+                # erased iterator): the assertion failures are the verdict, the unwinding failure is their consequence
+                r.note = 'unwinding assertion also failed (consequence of the failing assertions): ' + ', '.join(unwind_fail[:2])
         else:
             r.status = 'error'
             r.note = 'cbmc exit %d: %s' % (proc.returncode, (out[-400:] + err[-400:]).replace('\n', ' | '))
